@@ -34,6 +34,7 @@ func c19Homes(c *Ctx, rule string) {
 	}
 	// the validating function: a function of the decoding family that takes a *Position and returns an error
 	var val *ssa.Function
+	var cands []*ssa.Function
 	for _, f := range staticFamily(c, dec) {
 		if f == dec || f.Pkg != dec.Pkg || f.Signature.Results().Len() != 1 || !isErrorType(f.Signature.Results().At(0).Type()) {
 			continue
@@ -45,6 +46,23 @@ func c19Homes(c *Ctx, rule string) {
 			}
 		}
 		if takesPos && readsCastling(c, f, castT, 0) {
+			cands = append(cands, f)
+		}
+	}
+	// the outermost one: not called by another candidate (the validation may be split into helpers)
+	for _, f := range cands {
+		inner := false
+		for _, g := range cands {
+			if g == f {
+				continue
+			}
+			for _, h := range staticFamily(c, g) {
+				if h == f {
+					inner = true
+				}
+			}
+		}
+		if !inner && val == nil {
 			val = f
 		}
 	}
@@ -109,6 +127,9 @@ func c19Homes(c *Ctx, rule string) {
 	}
 	outs := in.Run(val, args, absint.NewState())
 	type check struct{ colour, piece, square int64 }
+	kingCount := map[int64]bool{}
+	accepts := map[int64][]string{}
+	compared := map[int64]bool{}
 	got := map[int64]map[check]bool{}
 	undec := ""
 	nErr := 0
@@ -117,11 +138,31 @@ func c19Homes(c *Ctx, rule string) {
 			undec = fmt.Sprintf("path not decided: %v", o.St.Notes)
 			continue
 		}
+		isNil := vstrOf(o.Ret) == "nil"
 		if cst, ok := o.Ret.(absint.Const); ok && cst.V == nil {
-			continue // nil error
+			isNil = true
 		}
-		if vstrOf(o.Ret) == "nil" {
+		if isNil {
+			// an accepting path: the king counts its comparisons with constants leave possible
+			for _, col := range []int64{white, black} {
+				for k := int64(0); k <= 3; k++ {
+					if kingCountPossible(o.St, col, king, k) && k != 1 {
+						accepts[col] = append(accepts[col], fmt.Sprintf("%d", k))
+					}
+				}
+				if kingCountCompared(o.St, col, king) {
+					compared[col] = true
+				}
+			}
 			continue
+		}
+		// a rejection that depends on how many kings a side has (a count of its king board, not a test of one square)
+		for _, f := range o.St.Facts {
+			for _, col := range []int64{white, black} {
+				if mentionsKingCount(f.Cond, col, king) {
+					kingCount[col] = true
+				}
+			}
 		}
 		// the rights found allowed on this path and the last failed board query
 		var rights []int64
@@ -186,6 +227,19 @@ func c19Homes(c *Ctx, rule string) {
 		sort.Strings(diff)
 		r.Check(len(diff) == 0, rule, "the right "+names[rv]+" is checked against its king and rook home squares", c.pos(val.Pos()), "", strings.Join(diff, "; ")+": a valid FEN whose other rook has moved is rejected (and the driver stops on 'position fen ...'), an invalid one is accepted")
 	}
+	// every later stage (KingSquare "must be valid and unique", the legality filter, the evaluators that index
+	// [64] tables with the king's square) assumes exactly one king per side
+	for _, col := range []struct {
+		name string
+		v    int64
+	}{{"White", white}, {"Black", black}} {
+		if kingCount[col.v] && compared[col.v] && len(accepts[col.v]) > 0 {
+			sort.Strings(accepts[col.v])
+			r.Fail(rule, "a placement without exactly one "+col.name+" king is rejected", c.pos(val.Pos()), "", "an accepting path of the validating function leaves a "+col.name+" king count of "+strings.Join(dedup(accepts[col.v]), " or ")+" possible")
+			continue
+		}
+		r.Check(kingCount[col.v], rule, "a placement without exactly one "+col.name+" king is rejected", c.pos(val.Pos()), "", "no rejecting path of the validating function depends on the number of "+col.name+" kings: 'k7/8/8/8/8/8/8/R7 w - - 0 1' decodes, KingSquare(White) is the invalid square 64, and the BERNSTEIN engine dies with index out of range [64] on 'go depth 2'; with two kings one of them castles from g1")
+	}
 	r.Infof("%s: %d abstract paths of %s, %d rejecting castling paths, %d uninterpreted calls", rule, len(outs), c.P.FuncName(val), nErr, n)
 }
 
@@ -206,4 +260,97 @@ func readsCastling(c *Ctx, f *ssa.Function, castT *types.Named, depth int) bool 
 		}
 	}
 	return false
+}
+
+// mentionsKingCount: the condition contains Piece(_, colour, King) outside an IsSet test (i.e. counted, compared
+// with the empty board, popped ... - not probed at one square).
+func mentionsKingCount(v absint.Value, colour, king int64) bool {
+	s, ok := v.(*absint.Sym)
+	if !ok {
+		return false
+	}
+	if s.Op == "IsSet" {
+		return false
+	}
+	if s.Op == "Piece" && len(s.Args) == 3 {
+		cv, okc := absint.ConstInt(s.Args[1])
+		pv, okp := absint.ConstInt(s.Args[2])
+		if okc && okp && cv == colour && pv == king {
+			return true
+		}
+	}
+	for _, a := range s.Args {
+		if mentionsKingCount(a, colour, king) {
+			return true
+		}
+	}
+	return false
+}
+
+// kingCountFacts: the path's comparisons of a term counting colour's kings with an integer constant.
+func kingCountFacts(st *absint.State, colour, king int64, f func(op string, k int64, countLeft, truth bool)) {
+	for _, fc := range st.Facts {
+		s, ok := fc.Cond.(*absint.Sym)
+		if !ok || len(s.Args) != 2 {
+			continue
+		}
+		switch s.Op {
+		case "==", "!=", "<", "<=", ">", ">=":
+		default:
+			continue
+		}
+		for i := 0; i < 2; i++ {
+			if k, ok := absint.ConstInt(s.Args[1-i]); ok && mentionsKingCount(s.Args[i], colour, king) {
+				if _, isC := absint.ConstInt(s.Args[i]); !isC {
+					f(s.Op, k, i == 0, fc.Truth)
+				}
+			}
+		}
+	}
+}
+
+func kingCountCompared(st *absint.State, colour, king int64) bool {
+	n := 0
+	kingCountFacts(st, colour, king, func(string, int64, bool, bool) { n++ })
+	return n > 0
+}
+
+// kingCountPossible: a count of n kings is consistent with every such comparison on the path.
+func kingCountPossible(st *absint.State, colour, king, n int64) bool {
+	okAll := true
+	kingCountFacts(st, colour, king, func(op string, k int64, left, truth bool) {
+		a, b := n, k
+		if !left {
+			a, b = k, n
+		}
+		var v bool
+		switch op {
+		case "==":
+			v = a == b
+		case "!=":
+			v = a != b
+		case "<":
+			v = a < b
+		case "<=":
+			v = a <= b
+		case ">":
+			v = a > b
+		case ">=":
+			v = a >= b
+		}
+		if v != truth {
+			okAll = false
+		}
+	})
+	return okAll
+}
+
+func dedup(xs []string) []string {
+	var out []string
+	for i, x := range xs {
+		if i == 0 || x != xs[i-1] {
+			out = append(out, x)
+		}
+	}
+	return out
 }
